@@ -111,6 +111,22 @@ CHECKS = {
         "Alphabet- and depth-bounded.",
         "DESIGN.md 4 C12",
     ),
+    "C16": (
+        "model_checking",
+        "exhaustive enumeration of event histories (each event through one of three handles of one "
+        "shared block) replayed on fresh real objects against an in-memory twin, followed by every "
+        "handle deletion order",
+        "For all five classes and shapes covering every alignment residue of the bookkeeping counters "
+        "(table bytes mod 8, heavy-hitter key area mod 4), every event sequence to depth 3 (quick) / 4 "
+        "(thorough) - add, add_ngram, merge of an in-memory sketch, merge of one handle into another, "
+        "query - is applied through the owner, a view attached by attach_existing_shm and a view "
+        "attached by helpers.attach_shared_memory; after every event all three handles and the "
+        "in-memory twin must agree on tables, bookkeeping and answers; then the handles are dropped in "
+        "every order and /dev/shm is inspected.",
+        "Linux /dev/shm semantics; the sketch modules' 0.25 s sleep in __del__ is a no-op during the "
+        "enumeration (one history per class is repeated with the real sleep). Depth-bounded.",
+        "DESIGN.md 4 C16",
+    ),
     "C18": (
         "model_checking",
         "explicit-state BFS near the ceilings of real linear / log8 / log16 / heavy-hitter sketches "
